@@ -88,7 +88,7 @@ Definition content_decode (content : bytes) (encoding indent line_endings : opti
                       end in
     if indent_bad then DParseHdr else
     let nl_res : res bytes :=
-      if pv_truthy line_endings then
+      if pv_given line_endings then
         match line_endings with
         | Some (VStr le) => get_newline_for_type le enc
         | _ => Err EValue
